@@ -76,6 +76,16 @@ def run(tier, seed):
                                  label="same options: simulated 6 requests ce=3")], plan3, opts3, request_sets={"CENTRE": [
                                      k for k in g3["keys"] if any(t in k for t in ("null_ray", "angmom", "fromHam", "Hamiltonian", "dtKtrace", "st_Ricci", "Einstein", "Ttrace", "rho_n", "Tdown4"))]})
     CC.execute(run, "C01", g3, plan3, opts3, seed, max_traces=150 if tier == "quick" else 1500)
+    # a tetrad other than the default: its first leg is the fluid 4-velocity itself (tetrad_base hands out the cached array)
+    opts4 = {"tetrad": "fluid"}
+    g4 = X.extract(opts4)
+    plan4 = CC.Plan()
+    tet = [k for k in g4["keys"] + g4["helpers"] if k in ("Weyl_Psi", "Weyl_invariants", "uup4", "udown4", "hdown4", "hup4", "Tdown4", "rho_n", "eweyl_u_down4",
+                                                        "call:null_vector_base", "call:tetrad_base")]
+    CC.run_models(run, g4, [dict(pres="tensors", nreq=2, ce=1000, requests="TETRAD", label="option tetrad != quasi-Kinnersley: 2 requests over the tetrad's consumers and the 4-velocity's"),
+                            dict(pres="components", nreq=3, ce=2, requests="TETRAD", simulate=(3 if tier == "quick" else 20), seed=seed + 13, emit=False,
+                                 label="same option: simulated 3 requests ce=2")], plan4, opts4, request_sets={"TETRAD": tet})
+    CC.execute(run, "C01", g4, plan4, opts4, seed, max_traces=60 if tier == "quick" else 600)
     CC.binding_demo(run, graph, seed)
     run.rule = ("histories = shortest history reaching every (key, branch leaf) of the evaluation programs in an exhaustive TLC run of "
                 "AurelCache on the graph extracted from the working tree, plus simulated longer behaviours; each is replayed on the real "
